@@ -667,7 +667,9 @@ class CSSMatch(_DocumentNav):
         """Filter the language tags."""
 
         match = True
-        lang_range = RE_WILD_STRIP.sub('-', lang_range).lower()
+        # Wildcards after the first subtag match any sequence of subtags, including none: collapse them to a
+        # single separator inside the range and drop them entirely at its end.
+        lang_range = RE_WILD_STRIP.sub(lambda m: '-' if m.group(0).endswith('-') else '', lang_range).lower()
         ranges = lang_range.split('-')
         subtags = lang_tag.lower().split('-')
         length = len(ranges)
